@@ -1,4 +1,5 @@
 import LarkVerif.Mangle
+import LarkVerif.Prune
 /-! # C17 — imports mean what textual inlining means (renaming core) -/
 namespace Props.C17
 open EarleyProto
@@ -25,5 +26,14 @@ theorem imported_name_is_alias (pre : MangleProto.Name) (aliases : List (MangleP
 
 example : MangleProto.mangle "m".toList [("x".toList, "y".toList)] "_h".toList = "_m__h".toList := by decide
 example : MangleProto.mangle "m".toList [("x".toList, "y".toList)] "x".toList = "y".toList := by decide
+
+/-- **Dropping unused definitions does not change the language.**  For any way of choosing the kept rules that is *closed* from the start symbols (every rule
+    of a start symbol is kept, and every rule of a nonterminal that a kept rule mentions is kept) — which is what `_remove_unused` after an import and the
+    "filter out unused rules" loop of `Grammar.compile` produce, and what `PruneProto.closedB` checks on lark's compiled rule sets on every run — each start
+    symbol derives exactly the same token strings before and after. -/
+theorem prune_unused_preserves_language (G : EarleyProto.Grammar) (keep : EarleyProto.Rule → Bool) (roots : List Nat) (h : PruneProto.closedB G keep roots = true)
+    (A : Nat) (hA : A ∈ roots) (w : List Nat) :
+    EarleyProto.DerivesSeq (PruneProto.pruned G keep) [EarleyProto.Sym.nt A] w ↔ EarleyProto.DerivesSeq G [EarleyProto.Sym.nt A] w :=
+  PruneProto.prune_preserves_language G keep roots (PruneProto.closedB_sound G keep roots h) A hA w
 
 end Props.C17
